@@ -149,6 +149,7 @@ impl Monitor for C04 {
         };
         let epochs = rng.range(1, 5);
         let with_val = idx % 2 == 0;
+        let tolerance: i32 = if idx % 10 == 4 { 1 } else if idx % 10 == 8 { 2 } else { 100 };
         let threads = *rng.pick(&[1usize, 2, 4, 8]);
         let softmax = obj == Obj::CE && rng.bool();
         let mut o = NetOpts::standard();
@@ -201,7 +202,7 @@ impl Monitor for C04 {
         let (vxr, vtr) = (val.x_refs(), val.t_refs());
         let (res, events) = in_cached_pool(threads, || {
             guard(|| {
-                let validation: Option<(&Vec<&Tensor>, &Vec<&Tensor>, i32)> = if with_val { Some((&vxr, &vtr, 100)) } else { None };
+                let validation: Option<(&Vec<&Tensor>, &Vec<&Tensor>, i32)> = if with_val { Some((&vxr, &vtr, tolerance)) } else { None };
                 net.learn(&xr, &tr, validation, batch, epochs as i32, None)
             })
         });
@@ -270,9 +271,16 @@ impl Monitor for C04 {
         };
         out.count("learn_runs", 1);
         out.count("events_checked", events.len() as u64);
-        if tl.len() != epochs || (with_val && vl.len() != epochs) {
+        // early stopping (decided by C13) may end the run before the budget; everything below
+        // refers to the epochs actually run
+        let may_stop = with_val && tolerance < 100;
+        if (tl.len() != epochs && !(may_stop && !tl.is_empty() && tl.len() < epochs)) || (with_val && vl.len() != tl.len()) {
             out.viol("train:epochs", format!("{} training-loss entries for {} epochs [{}]", tl.len(), epochs, desc), detail());
             return out;
+        }
+        let epochs = tl.len();
+        if may_stop {
+            out.count("runs_with_small_early_stopping_tolerance", 1);
         }
         // (a) trace grammar
         let ttags = train.tags();
